@@ -12,7 +12,8 @@
    target is not loaded raises DaeInstanceNotLoadedError, which unwinds to the top-level loop
    and defers the WHOLE top-level node.  _loadNodes / Scene.load: first pass in document order,
    retry passes while something is pending and the previous pass loaded something, deferred nodes
-   end up after the others; leftovers are DaeBrokenRefErrors (through handleError for library
+   end up after the others in collada.nodes (a scene's node list is put back into document
+   order at the end); leftovers are DaeBrokenRefErrors (through handleError for library
    nodes, a direct raise failing the whole scene for scene nodes).
 
    Not modelled: how many times an aborting error is recorded while it unwinds through nested
@@ -216,13 +217,18 @@ Fixpoint load_node_groups (mk : mask) (o : objs) (groups : list (list tnode)) (l
       end
   end.
 
+(* Scene.load (since /repo c91a4c8) finally sorts the loaded top-level nodes by their position in
+   the document; collada.nodes keeps load order (deferred nodes after the others) *)
+Definition in_document_order (doc_nodes : list tnode) (l : list lnode) : list lnode :=
+  flat_map (fun n => filter (fun ln : lnode => N.eqb (fst (fst ln)) (n_uid n)) l) doc_nodes.
+
 (* Scene.load as one item of the visual-scene library loop; errors recorded inside are kept *)
 Definition load_scene (mk : mask) (o : objs) (s : scene) (errs : list exn)
   : list exn * (outcome lscene + unit (* out of fuel *)) :=
   match load_group mk InScene o (s_nodes s) [] errs with
   | NOutOfFuel => (errs, inr tt)
   | NAborted _ e x => (e, inl (Raise x))
-  | NFinished l [] e => (e, inl (Ok (s_uid s, s_id s, l)))
+  | NFinished l [] e => (e, inl (Ok (s_uid s, s_id s, in_document_order (s_nodes s) l)))
   | NFinished _ (_ :: _) e => (e, inl (Raise DaeBrokenRef))
   end.
 
